@@ -252,7 +252,14 @@ fn model_write(op: WOp, g: Geo, model: &[i32], fresh: i32, src: &Buf2<i32>) -> (
 fn real_write<D: DerefMut<Target = [i32]>>(v: &mut Inner<i32, D>, op: WOp, fresh: i32, src: &Buf2<i32>) -> Result<(), String> {
     match op {
         WOp::Fill => v.fill(fresh),
-        WOp::FillWith => v.fill_with(|x, y| fresh + (10 * y + x) as i32),
+        WOp::FillWith => {
+            // a stateful callback: the documented row-major call order is part of the contract
+            let (w, h) = v.dims();
+            let mut calls: Vec<(u32, u32)> = vec![];
+            v.fill_with(|x, y| { calls.push((x, y)); fresh + (10 * y + x) as i32 });
+            let exp: Vec<(u32, u32)> = (0..h).flat_map(|y| (0..w).map(move |x| (x, y))).collect();
+            if calls != exp { return Err(format!("fill_with called its function at {calls:?}, row-major order is {exp:?}")); }
+        }
         WOp::GetMut { x, y } => { if let Some(c) = v.get_mut(pt2(x, y)) { *c = fresh; } }
         WOp::IdxPt { x, y } => v[pt2(x, y)] = fresh,
         WOp::IdxArr { x, y } => v[[x, y]] = fresh,
